@@ -9,7 +9,7 @@ import ast
 import itertools
 import z3
 
-from .ty import (INT, BOOL, STR, BYTES, FLOAT, NONE, VAL, ANYFUNC, Ref, ListT, DictT, TupleT, Prim,
+from .ty import (INT, BOOL, STR, BYTES, FLOAT, NONE, VAL, REAL, ANYFUNC, Ref, ListT, DictT, TupleT, Prim,
                  Fl, Val, sort_of, sort_key, is_reflike, tuple_sort)
 from .contract import Contract, Loop
 
@@ -556,6 +556,8 @@ class Engine(object):
                 return z3.Or(z3.And(Val.is_vflt(v.z), Val.fval(v.z) == o.z),
                              z3.And(Val.is_vint(v.z), f_i2f(Val.ival(v.z)) == o.z))
             return B(False)
+        if REAL in (ta, tb) and ta in (INT, REAL) and tb in (INT, REAL):
+            return (z3.ToReal(a.z) if ta == INT else a.z) == (z3.ToReal(b.z) if tb == INT else b.z)
         if ta == BOOL and tb == INT:
             return z3.If(a.z, I(1), I(0)) == b.z
         if ta == INT and tb == BOOL:
@@ -600,6 +602,18 @@ class Engine(object):
         if tb == BOOL:
             b = self.coerce(b, INT)
             tb = INT
+        if REAL in (ta, tb) and ta in (INT, REAL) and tb in (INT, REAL):
+            x = z3.ToReal(a.z) if ta == INT else a.z
+            y = z3.ToReal(b.z) if tb == INT else b.z
+            if isinstance(op, ast.Add):
+                return SV(REAL, x + y)
+            if isinstance(op, ast.Sub):
+                return SV(REAL, x - y)
+            if isinstance(op, ast.Mult):
+                return SV(REAL, x * y)
+            if isinstance(op, ast.Div):
+                return SV(REAL, x / y)
+            raise Unsupported('real op %s' % type(op).__name__)
         if ta == INT and tb == INT:
             x, y = a.z, b.z
             if isinstance(op, ast.Add):
@@ -741,6 +755,10 @@ class Engine(object):
                    ast.Gt: (ai > bi, f_lt(fb, fa)), ast.GtE: (ai >= bi, z3.Or(f_lt(fb, fa), fa == fb))}
             ic, fc = tbl[type(op)]
             return z3.If(isint, ic, fc)
+        if REAL in (ta, tb) and ta in (INT, REAL) and tb in (INT, REAL):
+            x = z3.ToReal(a.z) if ta == INT else a.z
+            y = z3.ToReal(b.z) if tb == INT else b.z
+            return {ast.Lt: x < y, ast.LtE: x <= y, ast.Gt: x > y, ast.GtE: x >= y}[type(op)]
         if ta == INT and tb == INT:
             x, y = a.z, b.z
             return {ast.Lt: x < y, ast.LtE: x <= y, ast.Gt: x > y, ast.GtE: x >= y}[type(op)]
@@ -1144,6 +1162,10 @@ class Engine(object):
                 if r is not None:
                     return r
             tgt = m.imports.get(name)
+            if name in m.functions:
+                return SV(ANYFUNC, ('func', ctx.module + '.' + name))
+            if tgt and tgt.startswith('pybufrkit') and (self.db.function(tgt) is not None or self.reg.get(tgt) is not None):
+                return SV(ANYFUNC, ('func', tgt))
             if name in m.classes or (tgt and self.known_class(tgt.rsplit('.', 1)[-1])):
                 cname = name if name in m.classes else tgt.rsplit('.', 1)[-1]
                 return SV(CLS, I(self.class_id(cname)))
